@@ -11,7 +11,8 @@ Reading rules (the trusted part of this translator, DESIGN §4.4):
   taken not to raise (scripts do not remove import hooks they did not install);
 * a release guarded by a test that says "if it is held" (`X in sys.path`, `tok is not None`) is read as the
   bare release (releasing what is not held is a no-op in the model);
-* `try/except` handlers may or may not match; `if` is a free choice; a `for` whose body holds no acquisition or
+* `try/except` handlers may or may not match, except around a single call of a function listed in RAISES_ONLY with
+  exactly that exception type (`build_repo` raises ValueError only: repositories fail later, while solving); `if` is a free choice; a `for` whose body holds no acquisition or
   release is zero-or-one run of its body; an unknown shape makes the skeleton `UNTRANSLATABLE` (resource 0).
 """
 from __future__ import annotations
@@ -24,8 +25,12 @@ NONRAISING = {
     "ArchiveMetaHook", "patch", "FakeModule", "FakeNumpyModule", "list", "hasattr", "isinstance", "getattr", "setattr",
     "LOG.debug", "LOG.info", "LOG.warning", "LOG.error", "begin_patch", "end_patch", "sys.modules.keys",
     "utils.normalize_project_name", "utils.parse_version", "os.path.isabs", "os.path.relpath", "re.split", "os.getcwd",
-    "'{}'.format", "format",
+    "'{}'.format", "format", "print",
 }
+
+
+# callees whose only exception is the one their call site handles (declared, part of the trusted reading rules)
+RAISES_ONLY = {"build_repo": "ValueError"}
 
 
 class Untranslatable(Exception):
@@ -38,6 +43,8 @@ class Skel:
         self.tokens = {}                # token variable -> resource id
         self.patch_vars = {}            # name bound to patch(...) -> list of sites
         self.sites = {}                 # label -> list of "module.member"
+        self.consts = {}                # flag name -> value: `if flag:` / `if not flag:` are decided
+        self.once = set()               # flags whose first test only is decided
 
     def rid(self, name):
         if name not in self.res:
@@ -93,6 +100,10 @@ def _guard_is_held_test(test: ast.AST) -> bool:
 
 
 def _stmt(sk: Skel, s: ast.stmt, probe=False) -> str:
+    if isinstance(s, ast.Assert):
+        return "(.choice .raise .skip)"
+    if isinstance(s, (ast.Continue, ast.Break)):
+        return ".skip"       # loops are read as zero-or-one run of their body
     if isinstance(s, (ast.FunctionDef, ast.ClassDef, ast.Pass, ast.Global, ast.Nonlocal, ast.Delete)):
         if isinstance(s, ast.Delete) and "sys.modules" in ast.unparse(s):
             return _seq(["(.relAll %d)" % sk.rid("sys.modules:fake"), "(.relAll %d)" % sk.rid("sys.modules:project")])
@@ -135,6 +146,8 @@ def _stmt(sk: Skel, s: ast.stmt, probe=False) -> str:
                 return _seq(["(.acq %d)" % sk.rid("sys.modules:project"), ".call"])
             if name == "shutil.rmtree":
                 return "(.rel %d)" % sk.rid("tmpdir:" + ast.unparse(v.args[0]))
+            if name == "sys.exit":
+                return ".raise"
         return ".call" if _may_raise(sk, v) else ".skip"
     if isinstance(s, (ast.Assign, ast.AnnAssign)):
         targets = s.targets if isinstance(s, ast.Assign) else [s.target]
@@ -162,7 +175,7 @@ def _stmt(sk: Skel, s: ast.stmt, probe=False) -> str:
             return "(.acq %d)" % sk.rid("sys.modules:project")
         if isinstance(targets[0], ast.Attribute) and tgt.split(".")[0] not in ("self",):
             # assignment to a member of a module: a substitution or its undoing
-            if isinstance(value, ast.Lambda) or isinstance(value, ast.Call):
+            if isinstance(value, ast.Lambda):
                 return "(.acq %d)" % sk.rid("attr:" + tgt)
             if isinstance(value, ast.Name) and value.id.startswith("old_"):
                 return "(.rel %d)" % sk.rid("attr:" + tgt)
@@ -172,6 +185,14 @@ def _stmt(sk: Skel, s: ast.stmt, probe=False) -> str:
     if isinstance(s, ast.AugAssign):
         return ".call" if _may_raise(sk, s.value) else ".skip"
     if isinstance(s, ast.If):
+        t = s.test
+        neg = isinstance(t, ast.UnaryOp) and isinstance(t.op, ast.Not)
+        nm = t.operand if neg else t
+        if isinstance(nm, ast.Name) and nm.id in sk.consts:
+            val = sk.consts[nm.id] != neg
+            if nm.id in sk.once:
+                sk.consts.pop(nm.id)       # the name is re-bound afterwards: only its first test is decided
+            return _block(sk, s.body if val else s.orelse, probe)
         if _guard_is_held_test(s.test) and not s.orelse:
             body = _block(sk, s.body, probe)
             if ast.unparse(s.test).endswith(" in sys.path"):
@@ -229,6 +250,10 @@ def _stmt(sk: Skel, s: ast.stmt, probe=False) -> str:
             for b in s.body:
                 b._in_import_try = False
             return "(.choice %s %s)" % (_block(sk, s.body, probe), _block(sk, s.handlers[0].body, probe))
+        if len(s.body) == 1 and len(s.handlers) == 1 and not s.finalbody and not s.orelse and s.handlers[0].type is not None:
+            calls = [c for c in _calls(s.body[0]) if _callee(c) not in NONRAISING]
+            if len(calls) == 1 and RAISES_ONLY.get(_callee(calls[0])) == ast.unparse(s.handlers[0].type):
+                return "(.tryAll %s %s)" % (_block(sk, s.body, probe), _block(sk, s.handlers[0].body, probe))
         body = _block(sk, s.body, probe)
         if s.orelse:
             body = _seq([body, _block(sk, s.orelse, probe)])
@@ -245,8 +270,9 @@ def _block(sk, stmts, probe=False) -> str:
     return _seq([_stmt(sk, s, probe) for s in stmts])
 
 
-def function_skeleton(path: str, fname: str):
-    """-> (lean term, resource names, patch site lists, error or None)"""
+def function_skeleton(path: str, fname: str, consts=None, once=(), preheld=()):
+    """-> (lean term, resource names, patch site lists, error or None); `consts` decides flag tests, `preheld` are
+    resources held on entry (acquired in front of the body)"""
     tree = ast.parse(open(path, encoding="utf-8").read())
     fn = None
     for n in ast.walk(tree):
@@ -254,10 +280,13 @@ def function_skeleton(path: str, fname: str):
             fn = n
             break
     sk = Skel()
+    sk.consts = dict(consts or {})
+    sk.once = set(once)
     if fn is None:
         return "(.acq 0)", sk.res, {}, "function %s not found" % fname
     try:
-        term = _block(sk, fn.body)
+        pre = ["(.acq %d)" % sk.rid(r) for r in preheld]
+        term = _seq(pre + [_block(sk, fn.body)])
     except Untranslatable as ex:
         return "(.acq 0)", sk.res, {}, str(ex)
     except Exception as ex:  # malformed source shapes
